@@ -14,6 +14,7 @@ import OnlVerif.Net.SPOnKReplay
 import OnlVerif.Net.TBOnKReplay
 import OnlVerif.Net.TwoRateOnKReplay
 import OnlVerif.Net.RROnKReplay
+import OnlVerif.Net.WRROnKReplay
 /-! Line-protocol driver: `driver <mode>` reads cases on stdin and prints the model's observations. -/
 
 def main (args : List String) : IO UInt32 := do
@@ -36,4 +37,5 @@ def main (args : List String) : IO UInt32 := do
   | ["tbk"] => tbkLoop stdin; return 0
   | ["trk"] => trkLoop stdin; return 0
   | ["rrk"] => rrkLoop stdin; return 0
+  | ["wrrk"] => wrrkLoop stdin; return 0
   | _ => IO.eprintln "usage: driver <kernel|fifo|gensink|timer|rt|…>"; return 2
